@@ -27,6 +27,12 @@ NEIGHBOURS = [{"from": "C11", "limit": 400, "why": "the in-progress marks are re
 
 
 def cases(tier, rng):
+    for c in directed.capture_reenters_function_cases():
+        yield "directed-capture-reenters-function", c
+    for c in directed.contract_on_builtin_with_callback_cases():
+        yield "directed-contract-on-builtin-with-callback", c
+    for c in directed.nested_constructor_keeps_outer_marks_cases():
+        yield "directed-nested-constructor-keeps-outer-marks", c
     for c in directed.deep_nesting_cases():
         yield "directed-deep-nesting", c
     for c in directed.method_contracts_during_reentry_cases():
